@@ -35,9 +35,15 @@ def parse_out(chunks) -> list:
     for c in chunks:
         head, _, body = c.partition("\r\n\r\n")
         try:
-            msgs.append(json.loads(body))
+            m = json.loads(body)
         except Exception:
             msgs.append({"_unparsed": c})
+            continue
+        # what goes on the wire is the UTF-8 encoding of the frame: the announced length must count its bytes
+        declared = [h.split(":", 1)[1].strip() for h in head.split("\r\n") if h.lower().startswith("content-length")]
+        if isinstance(m, dict) and declared and declared[0].isdigit() and int(declared[0]) != len(body.encode("utf-8")):
+            m = dict(m, _bad_length={"declared": int(declared[0]), "bytes": len(body.encode("utf-8"))})
+        msgs.append(m)
     return msgs
 
 
